@@ -149,7 +149,94 @@ func unionWith(t string) string {
 	return t + " | Int"
 }
 
+// grid: many operand pairs per program. `path<TAB>grid<TAB>OP<TAB>TA<TAB>TB<TAB>hex(LA);…<TAB>hex(LB);…`
+// (unary: OP = u-, u+, u~ and the LB list is ignored). Two programs: the literal expressions, and one program with
+// typed and union-typed variables evaluating typed, union, call and ucall segments (unary: typed, union).
+// answer: `ok n=<pairs> lit=<list|outcome> rest=<list|outcome>`
+func execGrid(f []string) string {
+	if len(f) != 6 {
+		return "bad-op"
+	}
+	op, ta, tb := f[1], f[2], f[3]
+	dec := func(s string) ([]string, bool) {
+		var out []string
+		for _, h := range strings.Split(s, ";") {
+			b, err := hex.DecodeString(h)
+			if err != nil {
+				return nil, false
+			}
+			out = append(out, string(b))
+		}
+		return out, true
+	}
+	las, ok1 := dec(f[4])
+	lbs, ok2 := dec(f[5])
+	if !ok1 || !ok2 {
+		return "bad-op"
+	}
+	unary := strings.HasPrefix(op, "u") && len(op) == 2
+	if unary {
+		lbs = []string{"0"}
+	}
+	var lit, decl, typed, union, call, ucall []string
+	for i, la := range las {
+		decl = append(decl, fmt.Sprintf("var a%d: %s = %s", i, ta, la), fmt.Sprintf("var u%d: %s = %s", i, unionWith(ta), la))
+	}
+	if !unary {
+		for j, lb := range lbs {
+			decl = append(decl, fmt.Sprintf("var b%d: %s = %s", j, tb, lb))
+		}
+	}
+	for i, la := range las {
+		for j, lb := range lbs {
+			if unary {
+				u := op[1:]
+				lit = append(lit, fmt.Sprintf("%s(%s)", u, la))
+				typed = append(typed, fmt.Sprintf("%sa%d", u, i))
+				union = append(union, fmt.Sprintf("%su%d", u, i))
+				continue
+			}
+			lit = append(lit, fmt.Sprintf("(%s) %s (%s)", la, op, lb))
+			typed = append(typed, fmt.Sprintf("a%d %s b%d", i, op, j))
+			union = append(union, fmt.Sprintf("u%d %s b%d", i, op, j))
+			call = append(call, fmt.Sprintf("a%d.%s(b%d)", i, op, j))
+			ucall = append(ucall, fmt.Sprintf("u%d.%s(b%d)", i, op, j))
+		}
+	}
+	l := runVariant("[" + strings.Join(lit, ", ") + "]")
+	// the checker may reject a segment (no bit operators on `Int | Float`, `!=` is not a method name): drop segments
+	// until the program is accepted
+	type seg struct {
+		name  string
+		exprs []string
+	}
+	tries := [][]seg{
+		{{"typed", typed}, {"union", union}, {"call", call}, {"ucall", ucall}},
+		{{"typed", typed}, {"union", union}},
+		{{"typed", typed}, {"call", call}},
+		{{"typed", typed}},
+	}
+	if unary {
+		tries = [][]seg{{{"typed", typed}, {"union", union}}, {{"typed", typed}}}
+	}
+	for _, t := range tries {
+		var all, names []string
+		for _, sg := range t {
+			all = append(all, sg.exprs...)
+			names = append(names, sg.name)
+		}
+		r := runVariant(strings.Join(decl, "\n") + "\n[" + strings.Join(all, ", ") + "]")
+		if !r.rejected {
+			return fmt.Sprintf("ok n=%d segs=%s lit=%s rest=%s", len(lit), strings.Join(names, ","), l.res, r.res)
+		}
+	}
+	return fmt.Sprintf("ok n=%d segs=- lit=%s rest=rejected", len(lit), l.res)
+}
+
 func execPath(f []string) string {
+	if len(f) >= 1 && f[0] == "grid" {
+		return execGrid(f)
+	}
 	if len(f) != 8 || f[0] != "run" {
 		return "bad-op"
 	}
